@@ -4,6 +4,7 @@
 #   1. replay: every seeded change that seeded/EXPECT.tsv lists for this property is applied to a scratch
 #      copy of /repo's current working tree (under ${TMPDIR:-/tmp}, removed afterwards) and the property's
 #      quick check must report a violation on it (regression test of the checker itself);
+#   1b. false-alarm guard: if the tree passes the quick check, so must every refactoring of /verif/refactors applied to it;
 #   2. the check itself with -tier thorough on /repo (larger parameters), which writes the evidence file.
 # Exit: the exit code of step 2 (1 + VIOLATION line if the property fails on the tree); 3 if the tree is
 # fine but a replay was missed (the checker lost a rule).
@@ -35,10 +36,33 @@ if [ -f $V/seeded/EXPECT.tsv ]; then
     fi
   done
 fi
+# 1b. false-alarm guard: when the current tree passes the quick check, every behaviour-preserving refactoring of
+#     /verif/refactors applied on top of it must pass as well (reported in the evidence; a miss here is a
+#     warning about the checker, not a statement about the tree, and does not change the exit code)
+alarms=0
+if [ "${VERIF_SKIP_GUARD:-}" = "" ] && $V/bin/rtcpcheck -prop $id -tier quick -repo "$REPO" -out "$scratch/ev0.json" > "$scratch/out0.txt" 2>&1; then
+  for d in $(find $V/refactors -name patch.diff | sort | xargs -n1 dirname); do
+    n=$(echo $d | sed "s#$V/refactors/##" | tr / -)
+    wt="$scratch/wt"
+    rm -rf "$wt"; mkdir -p "$wt"
+    (cd "$REPO" && tar --exclude=.git -cf - .) | (cd "$wt" && tar -xf -)
+    if ! (cd "$wt" && git apply --unsafe-paths "$d/patch.diff" 2>/dev/null || patch -s -p1 < "$d/patch.diff" >/dev/null 2>&1); then
+      echo "refactoring $n: skipped (patch does not apply to the current tree)" >> "$summary"
+      continue
+    fi
+    if $V/bin/rtcpcheck -prop $id -tier quick -repo "$wt" -out "$scratch/ev.json" > "$scratch/out.txt" 2>&1; then
+      echo "refactoring $n: silent" >> "$summary"
+    else
+      echo "refactoring $n: ALARM ($(grep -E '^  (VIOLATED|UNDECIDED|FATAL)' "$scratch/out.txt" | head -1 | cut -c3-140))" >> "$summary"
+      alarms=$((alarms+1))
+    fi
+  done
+fi
 export VERIF_REPLAY_SUMMARY="$summary"
 $V/bin/rtcpcheck -prop $id -tier thorough -repo "$REPO"
 rc=$?
 cat "$summary"
 if [ $rc -ne 0 ]; then exit $rc; fi
+if [ $alarms -gt 0 ]; then echo "SELFTEST-WARNING property=$id: the check fires on $alarms behaviour-preserving refactoring(s) of the current tree"; fi
 if [ $missed -gt 0 ]; then echo "SELFTEST-FAILED property=$id: $missed seeded change(s) that this check used to catch are no longer caught"; exit 3; fi
 exit 0
